@@ -354,7 +354,7 @@ def gen_stream(rng, max_tokens=300, zlib_wrap=False, min_blocks=1, max_blocks=4,
         n = rng.range(0, n)
         opts = {}
         if kind == "stored":
-            toks = [("lit", rng.below(256)) for _ in range(min(n * 3, 65535))]
+            toks = [("lit", rng.below(256)) for _ in range(min(rng.choice([n * 3, n, 1, 2, 0]), 65535))]
             opts["junk"] = rng.chance(1, 2)
         else:
             toks, _ = gen_tokens(rng, len(out), n, style)
@@ -402,6 +402,24 @@ def directed_streams(rng):
     mk("dist32768", [("stored", big, {}), ("fixed", [("match", 258, 32768), ("match", 3, 32768)], {})])
     mk("deep15", [("dynamic", [("lit", i) for i in range(256)] * 2 + [("match", 258, 300), ("match", 3, 1)], {"shape": "deep"})])
     mk("hlit286_hdist30_hclen19", [("dynamic", lits + [("match", 4, 3)], {"hlit_max": True, "hdist_max": True, "hclen_max": True})])
+    # literal followed by a length-258 match with a long tail: the fast loop's worst case (259 bytes per iteration)
+    for k in (5, 10, 40):
+        tail = [("lit", (i * 7 + 3) & 255) for i in range(60)]
+        mk("fast_lit_258_k%d" % k, [("fixed", [("lit", 65 + (i % 20)) for i in range(k)] + [("lit", 88), ("match", 258, 1)] + tail +
+                                     [("lit", 89), ("match", 258, 2), ("match", 258, k)] + tail, {})])
+    # a 1- or 2-byte stored block right after a Huffman block, for every fill level of the bit buffer
+    for sl in (1, 2):
+        for k in range(0, 44, 1):
+            lits = [("lit", 200 + (i % 50)) for i in range(k % 24)] + [("lit", 40 + (i % 90)) for i in range(k)]
+            mk("short_stored%d_k%d" % (sl, k), [("fixed", lits, {}), ("stored", [("lit", 170 + j) for j in range(sl)], {}),
+                                                 ("fixed", [("lit", 1), ("lit", 2), ("match", 3, 2)], {})])
+    # long codes on both alphabets with many matches
+    toks = []
+    for i in range(300):
+        toks.append(("lit", (i * 37) & 255))
+        if i % 3 == 2:
+            toks.append(("match", 3 + (i * 11) % 256, 1 + (i * 97) % min(len(toks), 700)))
+    mk("deep15_matches", [("dynamic", toks, {"shape": "deep"})])
     for align in range(8):
         bw = BitWriter()
         out = bytearray()
@@ -491,6 +509,83 @@ def targeted_invalid(rng):
     res.append(("litlen286", bw.finish()))
     bw = BitWriter(); bw.put(1, 1); bw.put(1, 2); bw.put_code(0x30 + 65, 8); bw.put_code(1, 7); bw.put_code(30, 5); bw.put(0, 32)
     res.append(("dist30", bw.finish()))
+    # code-length code with a single symbol (incomplete), for several symbols, long random tails
+    for sym_pos, name in ((0, "16"), (1, "17"), (2, "18"), (3, "0"), (4, "8"), (6, "9")):
+        for hlit in (0, 3, 29):
+            bw = BitWriter(); bw.put(1, 1); bw.put(2, 2); bw.put(hlit, 5); bw.put(rng.below(30), 5); bw.put(15, 4)
+            for i in range(19):
+                bw.put(1 if i == sym_pos else 0, 3)
+            for _ in range(12):
+                bw.put(rng.below(1 << 16), 16)
+            res.append(("clen_single_%s_h%d" % (name, hlit), bw.finish()))
+    # code-length code with two 2-bit codes (incomplete) / five 2-bit codes (over-subscribed)
+    for cnt, nm in ((2, "incomplete2"), (3, "incomplete3"), (5, "oversub5")):
+        bw = BitWriter(); bw.put(1, 1); bw.put(2, 2); bw.put(0, 5); bw.put(0, 5); bw.put(15, 4)
+        for i in range(19):
+            bw.put(2 if i < cnt else 0, 3)
+        for _ in range(12):
+            bw.put(rng.below(1 << 16), 16)
+        res.append(("clen_%s" % nm, bw.finish()))
+    # literal/length and distance alphabets with degenerate sets, everything else consistent
+    def dyn_with_lens(ll, dl, toks_bits, tail=8):
+        seq = ll + dl
+        bw = BitWriter(); bw.put(1, 1); bw.put(2, 2); bw.put(len(ll) - 257, 5); bw.put(len(dl) - 1, 5)
+        used = sorted(set(seq))
+        # code length code: give every used length a 4-bit code (16 codes of 4 bits is complete) + pad symbols
+        cl = [0] * 19
+        for v in range(16):
+            cl[v] = 4
+        bw.put(15, 4)
+        for i in range(19):
+            bw.put(cl[CLEN_ORDER[i]], 3)
+        cc = canonical_codes(cl)
+        for v in seq:
+            bw.put_code(cc[v], 4)
+        for (val, n) in toks_bits:
+            bw.put(val, n)
+        for _ in range(tail):
+            bw.put(rng.below(256), 8)
+        return bw.finish()
+    base_ll = [0] * 257
+    # single 2-bit literal code (incomplete, max length 2): invalid
+    ll = list(base_ll); ll[256] = 2
+    res.append(("litlen_single_len2", dyn_with_lens(ll, [0], [(0, 2)])))
+    # two codes of length 2 (incomplete): invalid
+    ll = list(base_ll); ll[65] = 2; ll[256] = 2
+    res.append(("litlen_two_len2", dyn_with_lens(ll, [0], [(0, 2), (2, 2)])))
+    # three codes of length 1 (over-subscribed)
+    ll = list(base_ll); ll[65] = 1; ll[66] = 1; ll[256] = 1
+    res.append(("litlen_three_len1", dyn_with_lens(ll, [0], [(0, 1), (1, 1)])))
+    # lengths 1,2,3 (incomplete by 1/8)
+    ll = list(base_ll); ll[65] = 1; ll[66] = 2; ll[256] = 3
+    res.append(("litlen_123", dyn_with_lens(ll, [0], [(0, 1), (1, 2), (3, 3)])))
+    # distance alphabet: two 2-bit codes (incomplete): invalid even if unused
+    ll = list(base_ll); ll[65] = 1; ll[256] = 1
+    res.append(("dist_two_len2", dyn_with_lens(ll, [2, 2], [(0, 1), (1, 1)])))
+    res.append(("dist_single_len2", dyn_with_lens(ll, [2], [(0, 1), (1, 1)])))
+    # errors met inside the fast loop: >= 14 bytes of input follow, big output buffers are used by the checks
+    for k in (0, 3, 20):
+        bw = BitWriter(); bw.put(0, 1); bw.put(1, 2)
+        for i in range(k):
+            bw.put_code(0x30 + 65 + i % 9, 8)
+        bw.put_code(0b11000110, 8)          # literal/length symbol 286
+        for _ in range(40):
+            bw.put(rng.below(256), 8)
+        res.append(("fast_litlen286_k%d" % k, bw.finish()))
+        bw = BitWriter(); bw.put(0, 1); bw.put(1, 2)
+        for i in range(k + 1):
+            bw.put_code(0x30 + 65 + i % 9, 8)
+        bw.put_code(1, 7); bw.put_code(30, 5)    # distance symbol 30
+        for _ in range(40):
+            bw.put(rng.below(256), 8)
+        res.append(("fast_dist30_k%d" % k, bw.finish()))
+        bw = BitWriter(); bw.put(0, 1); bw.put(1, 2)
+        for i in range(k + 1):
+            bw.put_code(0x30 + 65 + i % 9, 8)
+        bw.put_code(1, 7); bw.put_code(10, 5); bw.put(15, 4)   # distance 33+15 > produced
+        for _ in range(40):
+            bw.put(rng.below(256), 8)
+        res.append(("fast_dist_far_k%d" % k, bw.finish()))
     # distance before start (flat)
     bw = BitWriter(); bw.put(1, 1); bw.put(1, 2); bw.put_code(0x30 + 65, 8); bw.put_code(1, 7); bw.put_code(4, 5); bw.put(1, 1); bw.put_code(0, 7)
     res.append(("dist_before_start", bw.finish()))
